@@ -11,7 +11,7 @@ import json, os, shutil, subprocess, sys, hashlib
 
 REPO = os.environ.get("VERIF_REPO", "/repo")
 VERIF = os.path.dirname(os.path.dirname(os.path.abspath(__file__)))
-HARNESS = os.path.join(VERIF, "harness")
+HARNESS = os.environ.get("VERIF_HARNESS") or os.path.join(VERIF, "harness")  # VERIF_HARNESS: a frozen copy, for tool runs that must not see edits in progress
 BIN = os.path.join(VERIF, "bin")
 
 GOENV = {
